@@ -5,10 +5,10 @@ package main
 // M-IDX (C07), M-PIN (C14), M-PAGE (C15), plus the C03 / C09 / C10 / C06 oracles.
 
 import (
-	"math"
 	"encoding/binary"
 	"encoding/json"
 	"fmt"
+	"math"
 	"os"
 	"sort"
 	"strings"
@@ -21,24 +21,24 @@ import (
 )
 
 type SqlCfg struct {
-	Frames     int         `json:"frames"`
-	Tables     []TableSpec `json:"tables"` // tables created at the start
-	LateTables []TableSpec `json:"late_tables"` // created by ddl ops later
-	NOps       int         `json:"n_ops"`
-	Slots      int         `json:"slots"`
-	MapPermute bool        `json:"map_permute"`
-	PAbort     float64     `json:"p_abort"`
-	PRestart   float64     `json:"p_restart"`
-	PCrashRestart float64  `json:"p_crash_restart"`
-	PDDL       float64     `json:"p_ddl"`
-	PStats     float64     `json:"p_stats"`
-	PSelect    float64     `json:"p_select"`
-	AbortFocus bool        `json:"abort_focus"` // C03: observable snapshot before/after every aborted transaction
-	InitRows   int         `json:"init_rows"`
-	Rich       bool        `json:"rich"`  // C06: boundary values, NULLs, negative literals, redundant/contradictory predicates
-	Joins      bool        `json:"joins"` // C11: join queries
-	PinFocus   bool        `json:"pin_focus"`
-	Nulls      bool        `json:"nulls"` // NULL values (known finding null-in-indexed-column): a minority of the C06 runs
+	Frames        int         `json:"frames"`
+	Tables        []TableSpec `json:"tables"`      // tables created at the start
+	LateTables    []TableSpec `json:"late_tables"` // created by ddl ops later
+	NOps          int         `json:"n_ops"`
+	Slots         int         `json:"slots"`
+	MapPermute    bool        `json:"map_permute"`
+	PAbort        float64     `json:"p_abort"`
+	PRestart      float64     `json:"p_restart"`
+	PCrashRestart float64     `json:"p_crash_restart"`
+	PDDL          float64     `json:"p_ddl"`
+	PStats        float64     `json:"p_stats"`
+	PSelect       float64     `json:"p_select"`
+	AbortFocus    bool        `json:"abort_focus"` // C03: observable snapshot before/after every aborted transaction
+	InitRows      int         `json:"init_rows"`
+	Rich          bool        `json:"rich"`  // C06: boundary values, NULLs, negative literals, redundant/contradictory predicates
+	Joins         bool        `json:"joins"` // C11: join queries
+	PinFocus      bool        `json:"pin_focus"`
+	Nulls         bool        `json:"nulls"` // NULL values (known finding null-in-indexed-column): a minority of the C06 runs
 }
 
 func genCols(r *rng, rich bool) []Col {
@@ -130,7 +130,7 @@ func genSqlCfg(r *rng, prop string, tier string) SqlCfg {
 			}
 			c.Tables = append(c.Tables, TableSpec{Name: fmt.Sprintf("t%d", i), Cols: cols, Wide: []int{6, 30, 120}[r.Intn(3)]})
 		}
-		c.InitRows = []int{0, 2, 8, 25, 60}[r.Intn(5)]
+		c.InitRows = []int{0, 2, 8, 25, 60, 90}[r.Intn(6)]
 	}
 	return c
 }
@@ -224,7 +224,8 @@ func sqlRow(r *rng, ts *TableSpec, k int32) []any {
 	row := []any{k}
 	for _, c := range ts.Cols[1:] {
 		if c.Name == "j" {
-			row = append(row, int32(r.Intn(6))) // join keys: few values, duplicates, gaps
+			// join keys: few values, many duplicates (more than three rows per key are common), gaps
+			row = append(row, int32([]int{0, 0, 1, 1, 1, 2, 3, 5}[r.Intn(8)]))
 			continue
 		}
 		row = append(row, randVal(r, c.Type, ts.Wide))
@@ -632,21 +633,21 @@ func (g *sqlGen) next(e *Exec) Op {
 // ---------------------------------------------------------------- the run
 
 type SqlRun struct {
-	Seed   uint64
-	Cfg    SqlCfg
-	Dir    string
-	Ops    []Op
-	S      *SUT
-	E      *Exec
-	Viol   []Violation
-	Stats  map[string]int
+	Seed       uint64
+	Cfg        SqlCfg
+	Dir        string
+	Ops        []Op
+	S          *SUT
+	E          *Exec
+	Viol       []Violation
+	Stats      map[string]int
 	Infeasible string
-	created []TableSpec
-	restarts int
-	sig    strings.Builder
-	touched  map[string]bool // tables written since the last verified quiescent point
-	diverged bool            // heap and model disagree: nothing after this point can be attributed
-	dead   bool // the engine panicked: latches may be left locked, nothing more can be run on this instance
+	created    []TableSpec
+	restarts   int
+	sig        strings.Builder
+	touched    map[string]bool // tables written since the last verified quiescent point
+	diverged   bool            // heap and model disagree: nothing after this point can be attributed
+	dead       bool            // the engine panicked: latches may be left locked, nothing more can be run on this instance
 }
 
 func (sr *SqlRun) stat(k string, n int) {
@@ -757,6 +758,9 @@ func (sr *SqlRun) checkIndexes(opIdx int, where string) {
 		}
 		sc := tm.Schema()
 		for ci := range ts.Cols {
+			if ci >= int(tm.GetColumnNum()) || ci >= len(tm.Indexes()) {
+				continue // schema differs from the created one: reported by the catalog check
+			}
 			idx := tm.GetIndex(ci)
 			if idx == nil || sr.dead {
 				continue
@@ -1111,6 +1115,7 @@ func (sr *SqlRun) catalogCheck(opIdx int, where string) {
 
 // quiescentChecks: run when no transaction is open.
 func (sr *SqlRun) quiescentChecks(opIdx int, where string, afterRestart string) {
+	progressTick()
 	if sr.dead {
 		return
 	}
@@ -1390,6 +1395,10 @@ func (sr *SqlRun) collect() {
 		if cfg.Slots > 1 {
 			prop = "C04"
 		}
+		if d.Join {
+			prop = "C11"
+			d.Class = "join-answer"
+		}
 		sr.viol(prop, d.Class, d.Detail, d.OpIndex)
 	}
 	for _, pv := range sr.E.PinViol {
@@ -1547,7 +1556,7 @@ func runSqlSim(run int, seed uint64) RunReport {
 		oj, _ := marshalOps(src.Ops)
 		v.Features = opFeatures(src.Ops)
 		rf := ReplayFile{Property: v.Property, Driver: "sqlsim", Seed: seed, Tier: flTier, Cfg: mustJSON(src.Cfg), Ops: oj, Faults: v.Faults, Violation: v, OpsCount: len(src.Ops)}
-		if flMinimise && len(seen) <= 2 {
+		if len(seen) <= 2 && mayMinimise() {
 			if m := minimiseSql(src, v); m != nil {
 				rf = *m
 			}
@@ -1574,6 +1583,14 @@ func reproduceSql(seed uint64, cfg SqlCfg, ops []Op, want Violation, tag string)
 	sr := newSqlRun(seed, cfg, tag)
 	defer os.RemoveAll(sr.Dir)
 	sr.execute(ops, nil)
+	if flVerbose && sr.E != nil {
+		for q, pl := range sr.E.PlanByStmt {
+			fmt.Fprintf(os.Stderr, "PLAN %s\n     %s\n", q, pl)
+		}
+		for _, v := range sr.Viol {
+			fmt.Fprintf(os.Stderr, "VIOL %s %s %s\n", v.Property, v.Class, v.Detail)
+		}
+	}
 	if sr.Infeasible != "" {
 		return nil
 	}
